@@ -5,6 +5,10 @@
 //!                          [0] = Err(..);  [1, w, h, layers, ice, pal_len, fonts, cells, s1, s2, s3] = Ok(buffer) with a
 //!                          position-weighted digest of `Buffer::get_char` over the picture (cells = -2, sums 0 when the
 //!                          picture is larger than 2 000 000 cells or has a negative size)
+//!   c2text <ext> <hex>     `Buffer::from_bytes` for the text loaders, observed as Run/RunC02Text.v prints its model:
+//!                          [0] = Err(..);  [1, bw, bh, tw, th, lw, lh, nlines, nlayers, d1, d2, -7, row lengths.., -9, (w h) of every
+//!                          further layer, -10, font-0 w h, then per further layer: offset x y, pixel size of its sixel]
+//!                          d1 / d2 = position-weighted sums of (code + 1) / (background != 0) over the cells of layer 0
 //!   c2sauce <hex>          `SauceData::extract`: [0] Err, [1] Ok(None), [2, header_len, w, h, ice] Ok(Some)
 //!   c2font <hex>           `BitFont::from_bytes`: [0] | [1, w, h, length]
 //!   c2tdf <hex>            `TheDrawFont::from_tdf_bytes`: [0] | [1, nfonts]
@@ -90,6 +94,53 @@ fn cell_sums(buf: &Buffer, w: i32, h: i32) -> (i64, i64, i64) {
     (s1, s2, s3)
 }
 
+fn text_obs(buf: &Buffer) -> Vec<i64> {
+    let l = &buf.layers[0];
+    let ts = &buf.terminal_state;
+    let m: i64 = 1_000_003;
+    let (mut d1, mut d2, mut k) = (0i64, 0i64, 1i64);
+    for ln in &l.lines {
+        for c in &ln.chars {
+            d1 = (d1 + (k % m) * ((c.ch as i64 + 1) % m)) % m;
+            d2 = (d2 + (k % m) * (if c.attribute.get_background() != 0 { 1 } else { 0 })) % m;
+            k += 1;
+        }
+    }
+    let mut v = vec![
+        1,
+        buf.get_width() as i64,
+        buf.get_height() as i64,
+        ts.get_width() as i64,
+        ts.get_height() as i64,
+        l.get_width() as i64,
+        l.get_height() as i64,
+        l.lines.len() as i64,
+        buf.layers.len() as i64,
+        d1,
+        d2,
+        -7,
+    ];
+    v.extend(l.lines.iter().map(|ln| ln.chars.len() as i64));
+    v.push(-9);
+    for x in buf.layers.iter().skip(1) {
+        v.push(x.get_width() as i64);
+        v.push(x.get_height() as i64);
+    }
+    v.push(-10);
+    let f = buf.get_font_dimensions();
+    v.push(f.width as i64);
+    v.push(f.height as i64);
+    for x in buf.layers.iter().skip(1) {
+        let o = x.get_offset();
+        v.push(o.x as i64);
+        v.push(o.y as i64);
+        let sz = x.sixels.first().map(|s| s.get_size()).unwrap_or_default();
+        v.push(sz.width as i64);
+        v.push(sz.height as i64);
+    }
+    v
+}
+
 fn make(args: &[&str]) -> Vec<i64> {
     let ext = args[0];
     let (w, h): (i32, i32) = (args[1].parse().unwrap(), args[2].parse().unwrap());
@@ -166,6 +217,10 @@ pub fn run(kind: &str, args: &[&str]) -> Option<Obs> {
                 Err(_) => vec![0],
             }
         }
+        "c2text" => match Buffer::from_bytes(&PathBuf::from(format!("verif.{}", args[0])), true, &unhex(args[1])) {
+            Ok(b) => text_obs(&b),
+            Err(_) => vec![0],
+        },
         "c2sauce" => match SauceData::extract(&unhex(args[0])) {
             Err(_) => vec![0],
             Ok(None) => vec![1],
